@@ -265,6 +265,7 @@ pub(crate) fn maybe_not_string(s: &str, style: &ScalarStyle) -> bool {
     style == &ScalarStyle::Plain
         && (parse_yaml12_float::<f64>(s, location, SfTag::None, false).is_ok()
             || parse_int_signed::<i128>(s, "i128", location, false).is_ok()
+            || parse_int_unsigned::<u128>(s, "u128", location, false).is_ok()
             || parse_yaml11_bool(s).is_ok()
             || scalar_is_nullish(s, &ScalarStyle::Plain))
 }
